@@ -235,7 +235,7 @@ AGENT_CHECKS = {
     },
     "C15": {
         "pkg": "p15",
-        "runs": [_r("TestC15", 500, 30000, qt=1500, tt=5000)],
+        "runs": [_r("TestC15", 500, 30000, qt=1500, tt=5000), _r("TestC15Concurrent", 120, 3000, qt=600, tt=3000)],
         "rule": "history of 1-12 (thorough 24) Server.Write calls of 1-3 ops over ~40 tuples (conditions with/without context), built by simulating the store so "
                 "that deletes of written tuples, re-writes of deleted tuples and no-ops ignored via on_duplicate/on_missing=ignore occur; backend memory/sqlite; "
                 "type filter or none; page size in {1,2,3,5,50,100}; a few % of cases also do the horizon experiment (two batches 400 ms apart, datastore "
